@@ -10,7 +10,7 @@ TRAILER = [0x5a, 0x11, 0x22]
 
 def corpus_for(tier, seed):
     n = 6 if tier == "quick" else 36
-    return schemas.corpus(n, seed) + [schemas.defaults_schema()]
+    return schemas.corpus(n, seed) + [schemas.defaults_schema(), schemas.struct_literal_schema()]
 
 
 def thrift_units(tier, seed, ss):
@@ -23,7 +23,8 @@ def thrift_units(tier, seed, ss):
         if not os.path.exists(p) or open(p).read() != txt:
             open(p, "w").write(txt)
         units.append(gen.Unit(s["name"], p))
-        units.append(gen.Unit(s["name"] + "k", p, keep=True))
+        if not s.get("no_keep"):
+            units.append(gen.Unit(s["name"] + "k", p, keep=True))
     return units
 
 
@@ -187,7 +188,11 @@ def analyse(tier, seed):
         return {"unit": "keep" if suf == "k" else "plain", "proto": proto, "err": "-", "mode": mode.split(":")[0], "kind": cs["kind"],
                 "how": how_class(cs["how"]), "def": "union" if cs["isunion"] else ("args" if cs["isarg"] else d["d"]),
                 "argtype": cs["ty"] in touches[cs["sid"]],
-                "synth": bool(d.get("synth"))}
+                # the one situation the argument-type shortcut is designed for (see lib/schemas.py, method md): the Args struct
+                # of a method with a single struct argument, decoded at the end of the buffer, as written by a conforming writer
+                "designed": bool(cs["isarg"] and cs["kind"] == "base" and len(d["fields"]) == 1 and d["name"].endswith(("ArgsSend", "ArgsRecv"))
+                                 and "Md" in d["name"]),
+                "synth": bool(d.get("synth")), "q": d.get("q", "-")}
 
     def tags_for(c0, check):
         t = set()
